@@ -174,6 +174,11 @@ def run(tier="quick", seed=0, arg=None):
              ['python_version == "3.8.1.*"', 'python_version != "3.8.1.*"']]
     fullp = [(t, parse_marker(t)) for t in [f'python_full_version {op} "{v}"' for v in ("3.8.5", "3.8.1", "3.8.0") for op in ("==", "!=", "<", ">=")]]
     group_pairs += [(x, y) for x in longp for y in fullp] + [(y, x) for x in longp[:4] for y in fullp[:4]]
+    # every operator on a python_version literal X.Y against the same python_full_version atoms (`python_version > "3.8"` is `python_full_version >= "3.9.0"`):
+    # the normalisation rules of the cross-variable merge, one by one, always in full
+    shortp = [(t, parse_marker(t)) for t in [f'python_version {op} "3.8"' for op in ("==", "!=", "<", "<=", ">", ">=", "~=")]]
+    fullq = fullp + [(t, parse_marker(t)) for t in ('python_full_version >= "3.9.0"', 'python_full_version < "3.9.0"', 'python_full_version > "3.8.5"', 'python_full_version <= "3.8.5"')]
+    group_pairs += [(x, y) for x in shortp for y in fullq] + [(y, x) for x in shortp for y in fullq[::3]]
     # single catalogued pairs (shapes reported by seeded changes): two `!=`-groups of one variable in different `or` branches, one bare and one inside an `and`
     # group - the re-parse folds them in another member order than `&` built them
     for ta, tb in (('os_name != "java" and os_name != "nt" or sys_platform == "linux"', 'os_name != "posix" and os_name != "nt"'),
